@@ -78,6 +78,8 @@ type BoolV struct {
 	BRoot Sym
 	BIdx  Lin
 	BTrue Mask
+	Weak  bool   // one-sided: the negation carries no information
+	NegOf *BoolV // unknown itself, but its negation is this fact (a != b of two bytes)
 }
 
 type FuncV struct {
@@ -120,7 +122,11 @@ func (v ByteV) key() string {
 func (v ByteV) bkey() string { return fmt.Sprintf("%d[%s]", v.Root, v.Idx.Key()) }
 func (v PtrV) key() string   { return "p:" + v.Key }
 func (v BoolV) key() string {
-	return fmt.Sprintf("B:%d:%d:%s:%v:%d[%s]%v", v.Known, v.Rel, v.L.Key(), v.IsB, v.BRoot, v.BIdx.Key(), v.BTrue)
+	k := fmt.Sprintf("B:%d:%d:%s:%v:%d[%s]%v%v", v.Known, v.Rel, v.L.Key(), v.IsB, v.BRoot, v.BIdx.Key(), v.BTrue, v.Weak)
+	if v.NegOf != nil {
+		k += "!" + v.NegOf.key()
+	}
+	return k
 }
 func (v FuncV) key() string {
 	if v.Fn == nil {
@@ -304,6 +310,18 @@ func substVal(v AVal, old Sym, e Lin) AVal {
 	case BoolV:
 		x.L = x.L.Subst(old, e)
 		x.BIdx = x.BIdx.Subst(old, e)
+		if x.BRoot == old && len(e.T) == 1 && e.C == 0 && e.T[0].K == 1 {
+			x.BRoot = e.T[0].S
+		}
+		if x.NegOf != nil {
+			n := *x.NegOf
+			n.L = n.L.Subst(old, e)
+			n.BIdx = n.BIdx.Subst(old, e)
+			if n.BRoot == old && len(e.T) == 1 && e.C == 0 && e.T[0].K == 1 {
+				n.BRoot = e.T[0].S
+			}
+			x.NegOf = &n
+		}
 		return x
 	case SliceV:
 		x.Len = x.Len.Subst(old, e)
